@@ -1,1 +1,36 @@
-// harnesses for mutex (included into loom under cfg(loom_verif))
+// crate::rt::mutex::verif -- C07 (lock machine), C01-O4.
+#![allow(dead_code, unused_imports)]
+
+use super::*;
+use crate::rt::verif::{le, max_raw, vharness, vv, vv_raw};
+#[cfg(not(kani))]
+use crate::rt::verif::kani_shim as kani;
+use crate::rt::MAX_THREADS;
+
+type Raw = [u16; MAX_THREADS];
+
+vharness! {
+    /// @prop C01 @tier quick @mode full @funcs mutex::State::last_dependent_access,mutex::State::set_last_access,rwlock::State::last_dependent_access,condvar::State::last_dependent_access,notify::State::last_dependent_access @bounds arbitrary earlier record, all clock values; one harness covers the four object kinds with a single access record
+    /// Mutex, RwLock, Condvar and Notify operations are all mutually dependent: the last dependent access is always the most recent access, whatever the operation.
+    fn opaque_objects_dependence() {
+        let p: usize = kani::any();
+        kani::assume(p < 1000);
+        let v: Raw = kani::any();
+        let mut m = State { seq_cst: false, lock: None, last_access: None, synchronize: Synchronize::new() };
+        if kani::any() {
+            let q: usize = kani::any();
+            m.last_access = Some(Access::new(q, &vv(kani::any())));
+        }
+        m.set_last_access(p, &vv(v));
+        let a = m.last_dependent_access().unwrap();
+        assert!(a.path_id() == p && vv_raw(a.version()) == v);
+        crate::rt::rwlock::verif::dependence(p, v);
+        crate::rt::condvar::verif::dependence(p, v);
+        crate::rt::notify::verif::dependence(p, v);
+        kani::cover!(p == 3, "reached");
+    }
+}
+
+pub(crate) fn mk_unlocked() -> State {
+    State { seq_cst: true, lock: None, last_access: None, synchronize: Synchronize::new() }
+}
